@@ -12,7 +12,7 @@ def dlByte (n : Nat) (complete : Bool) : Nat := 35 + 4 * ((4 - n) % 4) + (if com
 theorem sdoByte_download (n : Nat) (complete : Bool) (h4 : n ≤ 4) :
     sdoByte true true (DOWNLOAD_SIZE_BASE - n % 256) complete cmdDownload = dlByte n complete := by
   have : n % 256 = n := by omega
-  cases complete <;> simp [sdoByte, dlByte, DOWNLOAD_SIZE_BASE, cmdDownload_eq, this]
+  cases complete <;> simp [sdoByte, dlByte, DOWNLOAD_SIZE_BASE, cmdDownload_eq, this] <;> omega
 
 /-- The download request as it lies in the IN mailbox: header, index, sub-index, size field, data. -/
 theorem downloadRequest_image (wmbx ctr index : Nat) (access : SubIndex) (value : List Nat) (hw : 16 ≤ wmbx)
@@ -124,14 +124,13 @@ theorem sdoWrite_server (srv : Server) (cfg : Cfg) (index sub : Nat) (value old 
       ({ srv with counter := nextCtr srv.counter, dict := srv.dict.set index sub value },
         [downloadResponse (nextCtr srv.counter) index sub false]) := by
     show serve s.dev _ = _
-    rw [hsrv, serve_download srv _ _ _ _ _ hw hi hs h1 h4 he]
+    rw [hsrv, serve_download srv _ s.ctr index (.index sub) value hw hi hs h1 h4 he]
     show ((srv.download (nextCtr srv.counter) index sub false value).1, [(srv.download (nextCtr srv.counter) index sub false value).2]) = _
     rw [download_stores srv _ _ _ _ old hab hold hlen]
   rw [mwr_single serverWorld cfg _ _ _ { ctr := nextCounter s.ctr, dev := s.dev, outq := s.outq, reqs := s.reqs, reads := s.reads }
     _ _ hm hq hresp]
   obtain ⟨h, data, ht⟩ := triage_download cfg (nextCtr srv.counter) index sub hi hr
-  show (match (triage cfg unpackSdoExpedited (validateIdx index sub) _, _) with | _ => _) = _
-  rw [ht]
+  simp only [SubIndex.subIndex, ht]
   have himg := downloadRequest_image cfg.wmbx s.ctr index (.index sub) value hw h4
   simp only [SubIndex.completeAccess, SubIndex.subIndex, Nat.mod_eq_of_lt hs] at himg
   rw [himg]
